@@ -32,6 +32,7 @@ func init() {
 	vHarnesses["H_C18_ops"] = H_C18_ops
 	vHarnesses["H_C08_order"] = H_C08_order
 	vHarnesses["H_C08_sort"] = H_C08_sort
+	vHarnesses["H_C08_rep"] = H_C08_rep
 	vHarnesses["H_C02_pair"] = H_C02_pair
 	vHarnesses["H_C02_rep"] = H_C02_rep
 	vHarnesses["H_C10_gen"] = H_C10_gen
@@ -73,6 +74,12 @@ func H_C03_gen2(inst int) {
 func H_C04_gen(inst int) {
 	i := newFull()
 	engine.VH_C04_gen(&i.VM, inst)
+}
+
+// H_C08_rep: two lists, each built in one of several representations: the order is that of the literal lists.
+func H_C08_rep(inst int) {
+	i := newFull()
+	engine.VH_C08_rep(&i.VM, inst)
 }
 
 // H_C03_disj / H_C17_disj: every parenthesisation of a disjunction / alternation containing one if-then.
